@@ -7,6 +7,7 @@ groupby-lib GroupBy engine for better performance while maintaining full compati
 
 from abc import ABC, abstractmethod
 from functools import wraps, cached_property
+from inspect import signature
 from typing import Hashable, Optional, Tuple, Union, List, Callable, Dict
 
 import numpy as np
@@ -161,7 +162,8 @@ class BaseGroupBy(ABC):
 
     def __iter__(self) -> Tuple[Hashable, Union[pd.Series, pd.DataFrame]]:
         for key, indexer in self.groups.items():
-            yield key, self._obj.loc[indexer]
+            # the group listing holds row positions, whatever the object's index
+            yield key, self._obj.iloc[indexer]
 
     @groupby_aggregation("Compute sum of group values")
     def sum(
@@ -298,7 +300,7 @@ class BaseGroupBy(ABC):
         pd.Series
             Series with first n values from each group
         """
-        result = self._grouper.head(self._obj, n)
+        result = self._grouper.head(self._values_to_group, n)
         return (
             result
             if isinstance(result, pd.Series)
@@ -319,7 +321,7 @@ class BaseGroupBy(ABC):
         pd.Series
             Series with last n values from each group
         """
-        result = self._grouper.tail(self._obj, n)
+        result = self._grouper.tail(self._values_to_group, n)
         return (
             result
             if isinstance(result, pd.Series)
@@ -342,11 +344,14 @@ class BaseGroupBy(ABC):
         """
         if isinstance(func, str):
             if hasattr(self, func):
-                return getattr(self, func)()
+                method = getattr(self, func)
+                if "mask" in signature(method).parameters:
+                    return method(mask=mask)
+                return method()
             else:
-                result = self._grouper.agg(self._obj, func)
+                result = self._grouper.agg(self._values_to_group, func, mask=mask)
         else:
-            result = self._grouper.apply(self._obj, func)
+            result = self._grouper.apply(self._values_to_group, func, mask=mask)
 
         return result
 
@@ -386,19 +391,21 @@ class BaseGroupBy(ABC):
         **func_kwargs
             Additional keyword arguments to pass to npfunc.
         """
-        return self._grouper.apply(self._obj, func, mask, *func_args, **func_kwargs)
+        return self._grouper.apply(
+            self._values_to_group, func, mask, *func_args, **func_kwargs
+        )
 
     @groupby_cumulative("Cumulative sum")
     def cumsum(self) -> pd.Series:
-        return self._grouper.cumsum(self._obj)
+        return self._grouper.cumsum(self._values_to_group)
 
     @groupby_cumulative("Cumulative maximum")
     def cummax(self) -> pd.Series:
-        return self._grouper.cummax(self._obj)
+        return self._grouper.cummax(self._values_to_group)
 
     @groupby_cumulative("Cumulative minimum")
     def cummin(self) -> pd.Series:
-        return self._grouper.cummin(self._obj)
+        return self._grouper.cummin(self._values_to_group)
 
     @groupby_cumulative(
         "Number each item in each group from 0 to the length of that group - 1"
@@ -466,7 +473,7 @@ class BaseGroupBy(ABC):
         dtype: float64
         """
         return self._grouper.ema(
-            self._obj,
+            self._values_to_group,
             alpha=alpha,
             halflife=halflife,
             times=times,
@@ -650,7 +657,7 @@ class BaseGroupByRolling:
         method = getattr(self._groupby_obj._grouper, f"rolling_{method_name}")
         return self._format_result(
             method(
-                self._groupby_obj._obj,
+                self._groupby_obj._values_to_group,
                 window=self._window,
                 min_periods=self._min_periods,
                 mask=mask,
